@@ -9,25 +9,40 @@ are identical the rules are given the *reference* function instead of the curren
 substituted and the rules analyse the current code exactly as before.  The rewriting only ever merges programs that compute the same
 thing, so a change of behaviour is never hidden; a refactoring the rewriting cannot see through is at worst reported as it was before.
 
-The normal form is a tree of *effects* (bind a variable that has to stay a variable, store into an object, call for effect, yield,
-return, raise, loop, try) under `if`s, in which every expression has been closed over the function's inputs:
+The normal form is a tree of *effects* (bind a variable that has to stay a variable, store into an object, call for effect, evaluate inside
+a try body, yield, return, raise, loop, try, with) under `if`s, in which every expression has been closed over the function's inputs:
+  * before anything else: helper procedures that exist on one side only are inlined at their call statements (parameters bound, locals renamed
+    apart, single exit); the locals are renamed apart by def-use web (webs.py), so that reusing a name for an unrelated value does not matter;
+    `x op= e` on a plain name is `x = x op e`;
   * straight-line dataflow: a local bound to a side-effect free expression is replaced by that expression at its uses (temporaries do not
-    matter, nor does the order of independent pure assignments); unused pure bindings disappear; a name bound once per loop iteration before
-    it is read is a temporary of that iteration;
-  * conditionals: tests are made positive (`not`, `!=`, `is not`, `not in` swap the arms); when an arm of an `if` can leave the block
-    (return/raise/continue/break) the statements after the `if` are continued inside both arms (early return == else branch); otherwise a
-    name bound differently in the two arms becomes a conditional expression; every conditional expression is lifted out of the effect it
-    occurs in, so `x = a if c else b`, `if c: x = a else: x = b`, `return f(a if c else b)` and `if c: return f(a) ...` coincide;
-  * `x op= e` on a plain name is `x = x op e`; `a, b = x, y` is two bindings;
-  * a loop that only appends to a fresh list / stores into a fresh dict is the comprehension;
+    matter, nor does the order of independent pure assignments); unused pure bindings disappear; a name bound (possibly several times) inside
+    a loop body, each time before it is read, is a temporary of that iteration;
+  * whatever is about to change is settled first: before a variable is rebound, an object mutated (store, mutator call, statement call), or a
+    loop / try / with entered that may do either, every pending expression that mentions it is bound to a variable of its own; an alias
+    (`b = a`) keeps the value when `a` is rebound and stays an alias when the object is only mutated; rebinding a name a nested function
+    reads settles the results of earlier calls;
+  * conditionals: tests are made positive (`not`, `!=`, `is not`, `not in` swap the arms; of a connective and its De Morgan dual the one with
+    fewer negated operands is kept; comparisons of evidently integer values use `<` only; the truth value of a list display is `len != 0`);
+    when an arm of an `if` can leave the block, or has effects and leaves different live bindings behind, the statements after the `if` are
+    continued inside both arms (early return == else branch; a common tail is moved back out; `if A: (if B: X else R) else R` is `if A and B`);
+    when the arms have no effects a name bound differently in the two arms becomes a conditional expression; every conditional expression
+    is lifted out of the effect it occurs in; tests already decided on a path prune nested occurrences, and are forgotten as soon as
+    something they mention changes;
+  * loops that only build a list / dict, append every item, look for a witness (`return` inside, or `break` with `else`) are the
+    comprehension / `extend` / `any` they spell out; `if c: continue` at the top of a loop body guards the rest; `min`/`max` of two values are
+    the conditional expressions the builtins compute; `d.setdefault(k, v)` as a statement is `if k not in d: d[k] = v`;
   * arithmetic is flattened: a - b = a + (-1)*b, a / b = a * b**-1, numeric factors collected, operands of * sorted, operands of + sorted when
     the sum is evidently numeric (a number, product, power or quotient occurs in it); a > b is b < a;
-  * calls to helper functions that exist on one side only are inlined when the helper is loop free;
+  * calls to loop-free helper functions that exist on one side only, or are small and identical on both sides, are replaced by their value;
   * module-level names bound once to a number literal are replaced by the literal;
-  * docstrings, `pass`, and the message text of `raise X(msg)` / `warnings.warn(msg)` are dropped (exception and warning *types* stay).
-Assumptions: expressions other than calls of mutating methods have no side effects whose order matters; `*` commutes (numbers, arrays,
-quantities); real-number algebra (re-association may change the last bits of a floating point result); a pure binding that is never used
-may be dropped although evaluating it could have raised; unpacking `a, b = e` reads e[0], e[1].
+  * docstrings, `pass`, and the message text of `raise X(msg)` / `warnings.warn(msg)` are dropped (exception and warning *types* stay);
+  * variables that stay variables are numbered by first occurrence in the finished form, comprehension variables by position.
+Assumptions: evaluating an expression other than a call of a mutating method has no side effect whose order matters and does not raise --
+so it may be evaluated later, on another path, or (when nothing uses it) not at all; inside a `try` body with handlers this is *not* assumed
+(every evaluation there is kept as an effect in its place); `*` commutes (numbers, arrays, quantities); real-number algebra (re-association
+may change the last bits of a floating point result); unpacking `a, b = e` reads e[0], e[1]; a generator expression is consumed where it is
+written.  tools/nf_fuzz.py tests "equal normal forms => same behaviour" by executing generated programs; tools/mutscan.py NFCHECK and
+tools/nf_twins.py probe it on the package's own functions.
 """
 from __future__ import annotations
 
@@ -46,6 +61,7 @@ IMPURE_FUNCS = {"next", "print", "setattr", "exec", "eval", "input", "open", "de
 CONSUMERS = {"tuple", "list", "set", "frozenset", "sum", "any", "all", "sorted", "min", "max", "dict", "OrderedDict", "reduce"}
 NUMERIC_FUNCS = {"exp", "log", "log10", "log2", "sqrt", "float", "int", "sum", "len", "abs", "min", "max", "sin", "cos", "tanh", "atanh", "arctanh", "floor", "round", "Fraction"}
 MAX_EFFECTS = 6000
+MAX_EXPR_NODES = 2500
 MAX_WORK = 200000    # statements walked (continuations are walked once per path)
 
 
@@ -82,6 +98,7 @@ class Normaliser:
         self.in_try = 0      # > 0 while the body of a try with handlers is being walked: evaluating an expression there may be the point
         self.decided: Dict[str, bool] = {}   # path condition: key of a test's positive core (tkey) -> its value on the current path
         self._tkeys: Dict[str, tuple] = {}
+        self._tk_by_id: Dict[int, tuple] = {}
         self._names_cache: Dict[int, tuple] = {}
         self.live_stack: List[Optional[set]] = [set()]   # names read after the block being walked returns to its caller (None: unknown, all)
         self._inval: List[str] = []          # keys dropped from `decided` because something they mention changed
@@ -606,41 +623,65 @@ class Normaliser:
     def tkey(self, test):
         """(key of the positive core of a test, is the test itself positive?) -- by construction the polarity and the core are those of `self.test`,
         so that `decided[key]` is the truth value of exactly the form that `mk_if` is given"""
+        hit = self._tk_by_id.get(id(test))
+        if hit is not None and hit[0] is test:
+            return hit[1]
         d = ast.dump(test)
-        hit = self._tkeys.get(d)
-        if hit is None:
+        got = self._tkeys.get(d)
+        if got is None:
             pos, t = self.test(test, {})
-            hit = (repr(t), pos)
-            self._tkeys[d] = hit
-        return hit
+            got = (repr(t), pos)
+            self._tkeys[d] = got
+        self._tk_by_id[id(test)] = (test, got)
+        return got
 
-    def choose(self, node, key, take_body):
-        """copy of the expression in which every IfExp on the test `key` (positive core) is replaced by the arm taken when the core is `take_body`"""
+    def choose(self, node, decided, bound=frozenset()):
+        """copy of the expression in which every conditional expression on a decided test (one that does not depend on a name bound by a comprehension
+        or lambda around it) is replaced by the arm that is taken"""
         if node is None or isinstance(node, (ast.Constant, ast.Name)):
             return node
-        if isinstance(node, ast.IfExp):
+        if isinstance(node, ast.IfExp) and not (bound and (_bound_names(node.test) & bound)):
             k, p = self.tkey(node.test)
-            if k == key:
-                return self.choose(node.body if (take_body == p) else node.orelse, key, take_body)
+            if k in decided:
+                return self.choose(node.body if (decided[k] == p) else node.orelse, decided, bound)
+        if isinstance(node, ast.Lambda):
+            a = node.args
+            b2 = bound | {p_.arg for p_ in a.posonlyargs + a.args + a.kwonlyargs} | ({a.vararg.arg} if a.vararg else set()) | ({a.kwarg.arg} if a.kwarg else set())
+            new_args = ast.arguments(posonlyargs=a.posonlyargs, args=a.args, vararg=a.vararg, kwonlyargs=a.kwonlyargs,
+                                     kw_defaults=[self.choose(d_, decided, bound) for d_ in a.kw_defaults], kwarg=a.kwarg,
+                                     defaults=[self.choose(d_, decided, bound) for d_ in a.defaults])
+            return ast.Lambda(args=new_args, body=self.choose(node.body, decided, b2))
+        if isinstance(node, (ast.ListComp, ast.SetComp, ast.GeneratorExp, ast.DictComp)):
+            b2 = bound
+            gens = []
+            for g in node.generators:
+                it = self.choose(g.iter, decided, b2)
+                b2 = b2 | _bound_names(g.target)
+                gens.append(ast.comprehension(target=g.target, iter=it, ifs=[self.choose(c, decided, b2) for c in g.ifs], is_async=g.is_async))
+            if isinstance(node, ast.DictComp):
+                return ast.DictComp(key=self.choose(node.key, decided, b2), value=self.choose(node.value, decided, b2), generators=gens)
+            return type(node)(elt=self.choose(node.elt, decided, b2), generators=gens)
         new = type(node)()
         for fld, val in ast.iter_fields(node):
             if isinstance(val, ast.AST):
-                setattr(new, fld, self.choose(val, key, take_body))
+                setattr(new, fld, self.choose(val, decided, bound))
             elif isinstance(val, list):
-                setattr(new, fld, [self.choose(x, key, take_body) if isinstance(x, ast.AST) else x for x in val])
+                setattr(new, fld, [self.choose(x, decided, bound) if isinstance(x, ast.AST) else x for x in val])
             else:
                 setattr(new, fld, val)
+        if getattr(node, "_unpacked_item", False):
+            new._unpacked_item = True
         return new
 
     def apply_decided(self, e):
         if e is None or not self.decided:
             return e
-        self.work += 5 * len(self.decided)
+        self.work += 5
         if self.work > MAX_WORK:
             raise Unsupported("normal form too expensive")
-        for key, val in self.decided.items():
-            e = self.choose(e, key, val)
-        return e
+        if not any(isinstance(x, ast.IfExp) for x in ast.walk(e)):
+            return e
+        return self.choose(e, self.decided)
 
     def under(self, key, val, thunk):
         """run thunk with the test `key` known to be `val`; what the thunk's effects made uncertain stays uncertain afterwards"""
@@ -870,12 +911,23 @@ class Normaliser:
     def bind_var(self, nm, value, env, eff):
         """the local `nm` stays a variable: emit its (re)binding"""
         self.materialise(env, {OP + nm}, eff, rebinding=True)
+        if nm in self.captured:
+            # a nested function reads this name when it is *called*: results of calls made so far are settled before the name changes
+            for other in list(env):
+                e_ = env[other]
+                if not (isinstance(e_, ast.Name) and e_.id == OP + other) and any(isinstance(x, ast.Call) for x in ast.walk(e_)):
+                    eff.extend(self.emit("bind", [e_], lambda fs, other=other: ("bind", self.vform(other), fs[0])))
+                    env[other] = ast.Name(id=OP + other, ctx=ast.Load())
         eff.extend(self.emit("bind", [value], lambda fs: ("bind", self.vform(nm), fs[0])))
         self.invalidate({OP + nm})
         env[nm] = ast.Name(id=OP + nm, ctx=ast.Load())
 
     def assign(self, target, value, env, eff, pure):
         """value: closed expression"""
+        n_nodes = sum(1 for _ in ast.walk(value))
+        self.work += 1 + n_nodes // 20
+        if n_nodes > MAX_EXPR_NODES:
+            raise Unsupported("closed expression too large")
         if isinstance(target, ast.Name):
             nm = target.id
             cur = env.get(nm)
